@@ -12,4 +12,4 @@ require (
 	github.com/tidwall/btree v1.8.1 // indirect
 )
 
-replace github.com/256dpi/lungo => /root/scratch/apply/lungo
+replace github.com/256dpi/lungo => /repo
